@@ -194,7 +194,9 @@ CLAIMS: dict[str, tuple[str, str, str, str]] = {
         "maxNesting (tie: `qblock`, 3k/80k documents). The list rule likewise (markers, item loop, line-table rewrite and "
         "restore, nested runs, empty-item workaround, tight paragraphs; Props/C01d.lean), giving l_total for the sub-parser "
         "code/fence/blockquote/hr/list/heading/paragraph with quotes and lists nested in each other to any depth (tie: "
-        "`lblock`, 3.5k/100k documents). "
+        "`lblock`, 3.5k/100k documents). On the inline side the contracts are relative to pos < posMax <= len(src) and proved for "
+        "text, newline, escape and backticks (closer cache and whole-source search included), giving imini_total for that inline "
+        "sub-parser under every rule subset (Props/C01e.lean; tie: `inline`). "
         "MISSING: for the other rules (table, reference, html_block, lheading, most inline rules) the "
         "contracts stay hypotheses, monitored on every "
         "call of every real rule (harness/monitor.py, ~47k rule calls per quick run); renderer/CLI totality "
@@ -231,7 +233,8 @@ CLAIMS: dict[str, tuple[str, str, str, str]] = {
         "fence markup+info is the opening line's text, hr markup the scanned run; getLinesB_spec, cutOf_spec); l_verbatim (Props/C08c: "
         "with quotes and lists nested to any depth, every content line of a code_block/fence is, after at most pad spaces, a suffix of "
         "the source line its map points to; fence markup+info is the tail of its opening line; hr markup is read off the tail of its "
-        "line). MISSING: html_block content, heading/list/quote markup, list start/info, the exact removed width inside containers: oracle reconstructs every content line from its source line and counts markers. Tie: every real "
+        "line); imini_codespans (Props/C08d: in the inline sub-parser text/newline/escape/backticks every code_inline token holds "
+        "codeSpanContent of exactly the text between two equal backtick runs of the source, its markup being that run). MISSING: html_block content, heading/list/quote markup, list start/info, the exact removed width inside containers: oracle reconstructs every content line from its source line and counts markers. Tie: every real "
         "getLines call, code span and hr traced and compared with the model.",
         NOTE,
         "Lean 4 proof (loop invariant of the indent-stripping scan; string lemmas) + per-call traces + reconstruction oracle",
